@@ -23,7 +23,7 @@ import (
 	"verifharness/lib/vlib"
 )
 
-const rule = "cases = (a) random DB programs biased to transactions (bodies from 0 to ~70 ops with values up to several write buffers, reads through the transaction and from outside incl. snapshots taken while it is open, commit / discard / Close-with-open-transaction, oversized batches with and without DisableLargeBatchTransaction) x option lattice x 4 comparers, checked per op against overlay and base maps plus storage residue; (b) writer-waits scenarios; (c) crash scenarios: every storage-op index around Commit x tail policies, reopened and compared with base / base+all; (d) commit-failure scenarios (manifest sync/write, table sync/write faults; retry, discard or close; follow-ups under a 10 s hang watchdog); (e) failing OpenTransaction; (f) commit-window scenarios with readers placed inside manifest writes and at the yield point between version install and sequence publication. Non-trivial = program with a transaction that flushed >=2 private tables and was read from both sides; scenario that reached its distinguishing situation (writer observed blocked then completed; both base and base+all crash images seen; a commit actually failed; a snapshot pinned inside the window)"
+const rule = "cases = (a) random DB programs biased to transactions (bodies from 0 to ~70 ops with values up to several write buffers, reads through the transaction and from outside incl. snapshots taken while it is open, commit / discard / Close-with-open-transaction, oversized batches with and without DisableLargeBatchTransaction) x option lattice x 4 comparers, checked per op against overlay and base maps plus storage residue; (b) writer-waits scenarios; (c) crash scenarios: every storage-op index around Commit x tail policies, reopened and compared with base / base+all; (d) commit-failure scenarios (manifest sync/write, table sync/write faults; retry, discard or close; follow-ups under a 10 s hang watchdog); (e) failing OpenTransaction; (f) commit-window scenarios with readers placed inside manifest writes and at the yield point between version install and sequence publication; (g) byte-level transaction scenarios in six variants (plain; an iterator held across a private flush; a table fault inside Transaction.Write followed by Commit or by Discard; a failing Commit followed by a retry or by Discard with working / failing storage), driven call by call with the private state observed after every call, judged directly (overlay inside, base outside, prefix applied by a failed Write, snapshot between a failed and a successful Commit unchanged) and rendered as KTxnBytes cases for the Coq byte-level machine. Non-trivial = program with a transaction that flushed >=2 private tables and was read from both sides; scenario that reached its distinguishing situation (writer observed blocked then completed; both base and base+all crash images seen; a commit actually failed; a snapshot pinned inside the window; byte-level scenario with >= 2 private flushes, an injected fault that was hit, or a Commit that actually failed)"
 
 type job struct {
 	kind string
